@@ -118,7 +118,7 @@ structure St where
   leaked : List Nat := []
   /-- ghost: interfaces somebody else created -/
   ext : List Nat := []
-  deriving Repr, Inhabited
+  deriving Repr, Inhabited, DecidableEq
 
 /-! ### cloud helpers -/
 
@@ -274,10 +274,20 @@ def pAfterCre (u : Nat) (r : Rec) : PPc :=
     | .bind => if r.uid == u then .fin else if r.fixed then .upd r.ver .detaching else .delRec
     | _ => .fin
 
+/-- `Delete` on a record with a finalizer: the deletion timestamp is set (once) -/
+def markDel (r : Rec) (v : Nat) : Rec := if r.del then r else { r with del := true, ver := v }
+
 def deleteRec (s : St) : St :=
   match s.rcd with
-  | some r => if r.del then s else s.bump fun r => { r with del := true }
+  | some r => { s with rcd := some (markDel r s.nextVer), nextVer := if r.del then s.nextVer else s.nextVer + 1 }
   | none => s
+
+/-- which status write the pod controller has decided on -/
+def pStatusOK (p : PPc) (ver : Nat) (ph : Phase) : Bool :=
+  match p with
+  | .upd v q => v == ver && q == ph
+  | .reconf u v ru => v == ver && ph == .binding && ru == u
+  | _ => false
 
 /-- the created interfaces with the release strategies the record gives them -/
 def stamp (made : List Alloc) (allocs : List (Nat × Strat)) : List Alloc :=
@@ -305,17 +315,14 @@ def stepP (s : St) : Ev → Option St
       | _, _ => some { s with p := .creating u [] false }
     | _ => none
   | .pStatus ver ph res =>
-    let ok : Bool := match s.p with
-      | .upd v p => v == ver && p == ph
-      | .reconf u v ru => v == ver && ph == .binding && ru == u
-      | _ => false
-    if !ok then none else
-    match res, s.rcd with
-    | .ok, some r => if r.ver == ver then some { (s.bump fun r => { r with phase := ph }) with p := .fin } else none
-    | .ok, none => none
-    | .stale, some r => if r.ver != ver then some { s with p := .fin } else none
-    | .stale, none => some { s with p := .fin }
-    | .err, _ => some { s with p := .fin }
+    if pStatusOK s.p ver ph then
+      match res, s.rcd with
+      | .ok, some r => if r.ver == ver then some { (s.bump fun r => { r with phase := ph }) with p := .fin } else none
+      | .ok, none => none
+      | .stale, some r => if r.ver != ver then some { s with p := .fin } else none
+      | .stale, none => some { s with p := .fin }
+      | .err, _ => some { s with p := .fin }
+    else none
   | .pSetUid ver u res =>
     match s.p with
     | .reconf u' v ru =>
@@ -401,6 +408,10 @@ def descMatches (c : List Eni) (id : Nat) : DescRes → Bool
   | .absent => (find c id).isNone
   | .free => match find c id with | some e => e.att.isNone | none => false
   | .att i => match find c id with | some e => e.att == some i | none => false
+
+/-- the status written when all interfaces are attached -/
+def bindRec (inst now : Nat) (c : Rec) : Rec :=
+  { c with phase := .bind, inst := some inst, lastSeen := if c.fixed then some now else c.lastSeen }
 
 def stepE (s : St) : Ev → Option St
   | .eStart => if s.e == .idle then some { s with e := .start } else none
@@ -516,9 +527,7 @@ def stepE (s : St) : Ev → Option St
         match res, s.rcd with
         | .ok, some c =>
           if c.ver == ver && r.enis.all (fun e => attachedTo s.cloud e inst) then
-            let t := s.bump fun c =>
-              { c with phase := .bind, inst := some inst, lastSeen := if c.fixed then some s.now else c.lastSeen }
-            some { t with e := .fin, obs := if r.fixed then some s.now else s.obs }
+            some { (s.bump (bindRec inst s.now)) with e := .fin, obs := if r.fixed then some s.now else s.obs }
           else none
         | .ok, none => none
         | .stale, some c => if c.ver != ver then some { s with e := .fin } else none
